@@ -1,7 +1,7 @@
 (* C07  Receive-side limits are enforced and buffering stays bounded.
    Only statements here; proofs live in coq/proofs/ConnLimitsP.v and ConnLimitsRefuted.v. *)
 From AQ Require Import lib.Base model.RangeSet model.StreamRecv model.ConnLimits model.ConnLimitsSpec
-  gen.C07Consts proofs.RangeSetP proofs.ConnLimitsP proofs.ConnLimitsAdv proofs.ConnLimitsRefuted.
+  gen.C07Consts proofs.RangeSetP proofs.ConnLimitsP proofs.ConnLimitsAdv proofs.ConnLimitsUsed proofs.ConnLimitsSim.
 
 (* over_limit_closes, part 1: in EVERY state, a STREAM / RESET_STREAM / MAX_STREAM_DATA / STREAM_DATA_BLOCKED
    frame that would create a peer-initiated stream beyond the current MAX_STREAMS value is answered with
@@ -60,13 +60,17 @@ Theorem over_limit_closes_reset : forall c sid fs s c1,
 Proof. exact reset_stream_checks. Qed.
 Print Assumptions over_limit_closes_reset.
 
-(* buffer_bounded: after EVERY sequence of operations (frames from the peer, write passes, lost MAX_* frames,
-   local stream opens) on a fresh connection:
+(* buffer_bounded: after EVERY sequence of operations (frames from the peer on any path, write passes, lost MAX_*
+   frames, local stream opens) on a fresh connection:
    - each stream's reassembly buffer holds at most highest_offset - delivered <= max_stream_data_local bytes;
-   - the buffers of all streams together hold at most max_data.used <= max_data.value bytes;
-   - the CRYPTO reassembly buffer holds at most MAX_PENDING_CRYPTO bytes;
-   - at most MAX_REMOTE_CHALLENGES path challenges are queued (per path), MAX_LOCAL_CHALLENGES local ones,
-     min(4 * active_connection_id_limit, MAX_PENDING_RETIRES) retirements, active_connection_id_limit peer CIDs. *)
+   - the buffers of all streams together hold at most max_data.used <= max_data.value bytes
+     (c_gone: ghost total of the highest offsets of discarded streams);
+   - the CRYPTO reassembly buffer holds at most MAX_PENDING_CRYPTO bytes, and the TLS handshake-message
+     reassembly buffer fewer than max(4, MAX_HANDSHAKE_MESSAGE_SIZE) bytes;
+   - at most MAX_REMOTE_CHALLENGES path challenges are queued per path and, over all remembered paths,
+     at most MAX_NETWORK_PATHS * MAX_REMOTE_CHALLENGES;
+   - MAX_LOCAL_CHALLENGES local challenges, min(4 * active_connection_id_limit, MAX_PENDING_RETIRES) retirements,
+     active_connection_id_limit peer CIDs. *)
 Theorem buffer_bounded : forall cl msd md cb ops os c,
   0 <= msd -> 0 <= md -> 0 <= cb ->
   run (conn_init cl msd md cb) ops = (os, c) ->
@@ -75,15 +79,46 @@ Theorem buffer_bounded : forall cl msd md cb ops os c,
      Zlen (r_buf (sm_recv s)) <= r_highest (sm_recv s) - r_start (sm_recv s) /\
      r_highest (sm_recv s) <= sm_msd s) /\
   sum_buf (c_streams c) <= sum_hi (c_streams c) /\
-  sum_hi (c_streams c) <= l_used (c_data c) /\
+  sum_hi (c_streams c) + c_gone c <= l_used (c_data c) /\ 0 <= c_gone c /\
   l_used (c_data c) <= l_value (c_data c) /\
   Zlen (r_buf (c_crypto c)) <= MAX_PENDING_CRYPTO /\
+  (forall m, TLS_MESSAGE_CAP = Some m -> Zlen (c_tls c) < Z.max 4 m) /\
   Zlen (c_chal c) <= MAX_REMOTE_CHALLENGES /\
+  (forall m, NETWORK_PATHS_CAP = Some m -> 1 <= m ->
+     Zlen (c_chal c) + sum_chal (c_paths c) <= m * MAX_REMOTE_CHALLENGES) /\
   Zlen (c_lchal c) <= MAX_LOCAL_CHALLENGES /\
   Zlen (c_retire c) <= Z.min (LOCAL_ACTIVE_CID_LIMIT * 4) MAX_PENDING_RETIRES /\
   1 + Zlen (c_cid_avail c) <= LOCAL_ACTIVE_CID_LIMIT.
 Proof. exact buffer_bounded_run. Qed.
 Print Assumptions buffer_bounded.
+
+(* the two caps of buffer_bounded exist in the tree under test, and an accepted RESET_STREAM advances highest_offset
+   (the three are probed from the source by tools/gen/c07_consts.py; this does not check on a tree without the fixes) *)
+Theorem limits_present :
+  (exists m, TLS_MESSAGE_CAP = Some m) /\ (exists m, NETWORK_PATHS_CAP = Some m /\ 1 <= m) /\ RESET_ADVANCES_HIGHEST = true.
+Proof. exact caps_present. Qed.
+Print Assumptions limits_present.
+
+(* used_is_sum_of_highest: after EVERY op sequence (RESET_STREAM, duplicates, late data, discarded streams included)
+   max_data.used is exactly the sum of highest_offset over all streams, live and discarded. *)
+Theorem used_is_sum_of_highest : forall cl msd md cb ops os c,
+  0 <= msd -> 0 <= md -> 0 <= cb ->
+  run (conn_init cl msd md cb) ops = (os, c) ->
+  l_used (c_data c) = sum_hi (c_streams c) + c_gone c.
+Proof. exact used_exact. Qed.
+Print Assumptions used_is_sum_of_highest.
+
+(* within_limit_never_accused_partial: for EVERY op sequence, a peer whose frames stay within the connection-level
+   limit and the stream-count limits AS ADVERTISED ON THE WIRE (transport parameters, then the MAX_DATA / MAX_STREAMS
+   frames actually written, model/ConnLimitsSpec.v), within the endpoint's current per-stream limit, and that is
+   final-size consistent, is never answered with FLOW_CONTROL_ERROR, STREAM_LIMIT_ERROR or FINAL_SIZE_ERROR.
+   Partial: the per-stream limit is max_stream_data_local itself (accused false ...), not the last
+   MAX_STREAM_DATA seen on the wire; missing is the per-stream analogue of advertised_is_enforced. *)
+Theorem within_limit_never_accused_partial : forall cl msd md cb ops,
+  0 <= msd -> 0 <= md -> 0 <= cb ->
+  accused false (conn_init cl msd md cb) (peer_init msd md) ops = false.
+Proof. exact never_accused_partial. Qed.
+Print Assumptions within_limit_never_accused_partial.
 
 (* the receiver bound used above, for every frame in every receiver state satisfying RB *)
 Theorem receiver_buffer_step : forall st off data fin, RB st ->
@@ -106,18 +141,3 @@ Theorem advertised_is_enforced : forall cl msd md cb ops os c,
 Proof. exact advertised_is_enforced. Qed.
 Print Assumptions advertised_is_enforced.
 
-(* within_limit_never_accused is REFUTED by the faithful model: a peer that stays within every limit advertised
-   on the wire and is final-size consistent (model/ConnLimitsSpec.v) is answered with FLOW_CONTROL_ERROR.
-   Witness: RESET_STREAM(0, 100) twice (or once, followed by late STREAM data below the final size), then
-   RESET_STREAM(4, 3900) with max_data = 4000: the bytes of stream 0 are charged twice. *)
-Theorem within_limit_never_accused_refuted :
-  exists client msd md ops, 0 <= msd /\ 0 <= md /\ accused (conn_init client msd md 0) (peer_init msd md) ops = true.
-Proof. exact never_accused_refuted. Qed.
-Print Assumptions within_limit_never_accused_refuted.
-
-(* "max_data.used = sum over streams of what the peer has committed" is REFUTED (same cause) *)
-Theorem used_accounting_refuted :
-  exists client msd md ops, 0 <= msd /\ 0 <= md /\
-    l_used (c_data (snd (run (conn_init client msd md 0) ops))) > peer_total (peer_init msd md) ops.
-Proof. exact used_accounting_refuted. Qed.
-Print Assumptions used_accounting_refuted.
